@@ -128,7 +128,7 @@ MemberRanges == Ranges(Members)
 Judge ==
   /\ stage = "done"
   /\ stage' = "judged" /\ UNCHANGED <<scen, primary, outcome>>
-  /\ LET fs == Failures(decl, transport, status, body, outcome)
+  /\ LET fs == Failures(decl, transport, status, body, "none", outcome)
      IN  (Emit /\ fs # {}) =>
             PrintT("DESIGN " \o ToJson([decl |-> SetToSeq(decl), first |-> first, transport |-> transport, status |-> status,
                                         body |-> body, kind |-> outcome.kind, fails |-> SetToSeq(fs)]))
@@ -168,7 +168,7 @@ MachineIsModel == Finished => outcome = ModelOutcome(Variant, decl, first, trans
 \* the judge and the property as stated are the same predicate
 JudgeAgrees ==
   (Finished /\ outcome.kind # "unimportable") =>
-      (Holds(status, outcome) <=> Failures(decl, transport, status, body, outcome) = {})
+      (Holds(status, outcome) <=> Failures(decl, transport, status, body, "none", outcome) = {})
 
 \* the property, clause by clause (names as in DESIGN.md appendix F)
 Judged == Finished /\ outcome.kind # "unimportable" /\ status \notin 200..299
